@@ -46,10 +46,10 @@ func init() {
 			w.Env = &manifests.PackageEnvironment{Kubernetes: manifests.PackageEnvironmentKubernetes{Version: "v1.27.0"}}
 		}
 		log := logr.Discard()
-		pc := pkgctrl.NewPackageController(w.Client, w.Uncached, log, w.Scheme, w.Puller, nil, nil, nil)
+		pc := pkgctrl.NewPackageController(w.DeployClient, w.Uncached, log, w.Scheme, w.Puller, nil, nil, nil)
 		pc.SetEnvironment(w.Env)
 		w.ctrls[CtrlPackage] = pc
-		cpc := pkgctrl.NewClusterPackageController(w.Client, w.Uncached, log, w.Scheme, w.Puller, nil, nil, nil)
+		cpc := pkgctrl.NewClusterPackageController(w.DeployClient, w.Uncached, log, w.Scheme, w.Puller, nil, nil, nil)
 		cpc.SetEnvironment(w.Env)
 		w.ctrls[CtrlClusterPackage] = cpc
 
